@@ -1,6 +1,6 @@
 """C03 — renaming preserves which binding every name refers to.
 
-Space: every compilable G_scope program of the tier (runnable or not) x every non-empty subset of {rename_locals, rename_globals,
+Space: every compilable G_scope program of the tier (runnable or not; plus the annotation-position programs with annotation removal off) x every non-empty subset of {rename_locals, rename_globals,
 hoist_literals, convert_posargs_to_args} x {annotation removal off, on}.
 Oracle: (1) the output is accepted by compile(); (2) static alpha-equivalence: walk2 aligns the output with the same program minified
 without the renaming options, scopes resolves both sides independently, and the induced relation on bindings must be a bijection that is
@@ -39,7 +39,7 @@ def bound(tier):
 
 
 def tasks(tier):
-    return [('scope', tier, i, NPARTS) for i in range(NPARTS)]
+    return [('scope', tier, i, NPARTS) for i in range(NPARTS)] + [('ann', tier, i, NPARTS) for i in range(NPARTS)]
 
 
 def examine(desc, src, sets, res):
@@ -107,8 +107,15 @@ def violation_for(src, base_out, base, ren, ref):
 
 def run_task(task):
     res = core.Result()
-    _, tier, part, nparts = task
+    kind, tier, part, nparts = task
     sets = option_sets(tier)
+    if kind == 'ann':
+        # annotation positions: parameters / variables annotated with their own name, scopes attached inside annotations.  Only with annotation
+        # removal off (removing an annotation that has an effect is the documented behaviour of that option, not a renaming matter)
+        sets = [(b, r) for b, r in sets if not b]
+        for desc, src in scope_engine.programs(tier, part, nparts, scope_engine.annotation_plan(tier)):
+            examine(desc, src, sets, res)
+        return res
     for desc, src in scope_engine.programs(tier, part, nparts):
         examine(desc, src, sets, res)
     return res
